@@ -48,6 +48,18 @@ ENDLESS = ("while (1) { }", "for (i9 = 0; 1; i9++) { }")
 # the three diagnostic lines of cli/cli.go: two blanks + quoted line, two blanks + caret right-aligned in a field of col+1, the message
 DIAG_RE = re.compile(rb"\A  ([^\n]*)\n  ( *)\^\n(syntax|runtime) error on line ([0-9]+): ")
 
+# ---- what a program text may START with.  LEAD_ILLEGAL: byte sequences no token can start with, (bytes, length of the first
+# character): byte order marks, other multi-byte sequences, control bytes.  The text is read byte by byte, so the fault is the first
+# byte of the sequence that cannot be part of a name, always inside the first character.
+LEAD_ILLEGAL = [(b"\xef\xbb\xbf", 3), (b"\xef\xbb\xbf\xef\xbb\xbf", 3), (b"\xc2\xa0", 2), (b"\xe2\x80\xa8", 3), (b"\xe2\x80\x8b", 3), (b"\xe2\x81\xa0", 3),
+                (b"\x01", 1), (b"\x0b", 1), (b"\x0c", 1), (b"\x1b[0m", 1), (b"\x7f", 1), (b"\x80", 1), (b"\xbf", 1), (b"\x1a", 1), (b"\x08", 1),
+                ("é".encode(), 2), ("€".encode(), 3), ("日".encode(), 3), ("😀".encode(), 4), (b"\xc2\x85", 2), (b"\xe3\x80\x80", 3)]
+# LEAD_OK: blank lines, blanks, comments (with multi-byte text, with a byte order mark inside): part of the text like any other line
+LEAD_OK = ["\n", "\n\n\n", "\r\n", "\r\n\r\n\r\n", "  ", "\t", " \t \n", "# comment\n", "# é © 日本語 😀\n", "#\n", "#\n#\n", "# \ufeff mark inside a comment\n",
+           "#!/usr/bin/env jqawk -f\n", "\n# c\n\n", "   # indented comment\r\n\t\r\n", " \n  \n   \n", "#" + "c" * 300 + "\n", "\n" * 40, "# a\n" * 25, "\t\t\t\t",
+           "#\ufeff\n", "\n # é\n  "]
+LEAD_PROGS = ["BEGIN { x = 1 }", "BEGIN { x = 1 }\n{ print }\nEND { print x }\n", "function g1(a) { return a }\nBEGIN {\n  x = g1(2)\n}\n", "{ print $ }", "# c\nBEGIN { s = \"é\" }\n"]
+
 
 def long_pad(rng, width):
     """statements (tabs, multi-byte strings) of exactly `width` bytes, ending after a ';' and blanks"""
@@ -171,7 +183,10 @@ class C12(Check):
             "unterminated string / regex), syntactic (%d malformed statements), runtime (%d fault statements of every kind, stray next directly and through a function)" % (len(SYNTAX_FAULTS), len(RUNTIME_FAULTS)) + " ; oracle: "
             "quoted line == line N of the text, N == planted line, column inside the planted span (on the character for an illegal "
             "character); plus faults spanning lines and LINECOL on random (text, position) pairs (text consistency, exact line/column "
-            "for positions on a byte of a line); non-trivial = at least 3 lines and the fault is not on the first")
+            "for positions on a byte of a line); texts that START with byte sequences no token can start with (byte order marks, multi-byte "
+            "sequences, control bytes: the fault is that first character, line 1, whatever follows) or with blank lines / blanks / comments "
+            "followed by a fault on the same line or 1 / 3 lines later (line and column count every byte of the text), library fields and the "
+            "binary's diagnostic; non-trivial = at least 3 lines and the fault is not on the first")
 
     def project(self, r):
         if len(r.raw) == 3:             # LINECOL
@@ -302,7 +317,84 @@ class C12(Check):
                 self.k += 1
                 self.cases.append(Case(cid, "LINECOL %s %s %d" % (cid, hx(src), pos), {"what": "linecol", "src": src.decode("utf-8", "replace"),
                                                                                        "srchex": hx(src), "pos": pos}, src.count(b"\n") >= 2))
+        # ---- what the text STARTS with (added last: the families above keep their random stream)
+        self.leading(rng, thorough)
         return self.cases
+
+    def leading(self, rng, thorough):
+        """(A) the text starts with bytes no token can start with: that is the fault, on line 1, inside the first character, whatever
+        follows (a faulty first line, a fault on a later line, a runtime fault, a valid program, a line break).  (B) the text starts with
+        blank lines / blanks / comments and a fault is planted on the first program line (the same line as the blanks) or k lines later:
+        line and column count every byte of the text.  (C) LINECOL on texts with such starts."""
+        reps = 4 if thorough else 1
+        syn = [t for t in SYNTAX_FAULTS]
+        run = [t for t in RUNTIME_FAULTS]
+        for _ in range(reps):
+            for seq, n1 in LEAD_ILLEGAL:
+                tails = [b"BEGIN { x = 1 @ 2 }\nEND { print x }\n", b"BEGIN { x = 1 }\n\nEND { y = 1 ` 2 }\n", b"BEGIN { x = 1 / 0 }\n", b"BEGIN { x = 1 }\n{ print }\nEND { x = [1] < 2 }",
+                         rng.choice(LEAD_PROGS).encode(), b"\n" + rng.choice(LEAD_PROGS).encode(), b"", b"\n", b" # c\n" + rng.choice(LEAD_PROGS).encode(),
+                         b"BEGIN {\r\n  x = (1\r\n}\r\n", b" " + seq + b"\nBEGIN { x = 1 }", b"BEGIN { print \"" + seq + b"\" }\n@"]
+                for tail in (tails if thorough else rng.sample(tails[:4], 2) + rng.sample(tails[4:], 3)):
+                    ws = rng.choice([b"", b"", b"", b"  ", b"\t", b" \t "])
+                    self.add(ws + seq + tail, {"what": "the text starts with %r: illegal character" % (ws + seq), "line": 1, "span": [len(ws), len(ws) + n1],
+                                               "outcome": "syntax", "exact": True, "lead": True}, tail.count(b"\n") >= 2)
+            for prefix in LEAD_OK:
+                for k in (0, 1, 3):
+                    ch = rng.choice(ILLEGAL)
+                    self.plant_lead(rng, prefix, k, "illegal character", "x = 1 " + ch, (6, 6 + len(ch.rstrip(" ").encode())), "syntax", True)
+                    self.plant_lead(rng, prefix, k, "syntax fault", rng.choice(syn), None, "syntax", False)
+                    self.plant_lead(rng, prefix, k, "runtime fault", rng.choice(run), None, "runtime", False)
+                # an illegal character is the first thing after the start
+                ch = rng.choice(ILLEGAL)
+                pb = prefix.encode("utf-8")
+                off = len(pb) - (pb.rfind(b"\n") + 1)
+                self.add(pb + (ch + " { print }\nEND { x = 1 }\n").encode("utf-8"),
+                         {"what": "the text starts with %r: illegal character %r right after it" % (prefix[:40], ch), "line": pb.count(b"\n") + 1,
+                          "span": [off, off + len(ch.rstrip(" ").encode())], "outcome": "syntax", "exact": True, "lead": True}, True)
+                # no fault at all
+                self.add(pb + rng.choice(LEAD_PROGS).encode("utf-8"), {"what": "no fault", "outcome": "ok", "lead": True}, False)
+        # (C) LINECOL
+        starts = [q for q, _ in LEAD_ILLEGAL] + [q.encode("utf-8") for q in LEAD_OK if len(q) < 50]
+        for i in range(len(starts) * (6 if thorough else 2)):
+            src = starts[i % len(starts)] + self.rand_text(rng)
+            for pos in {0, rng.randint(0, 4), rng.randint(0, len(src) + 1)}:
+                cid = "l%d" % self.k
+                self.k += 1
+                self.cases.append(Case(cid, "LINECOL %s %s %d" % (cid, hx(src), pos), {"what": "linecol", "src": src.decode("utf-8", "replace"),
+                                                                                       "srchex": hx(src), "pos": pos}, src.count(b"\n") >= 2))
+
+    def plant_lead(self, rng, prefix, k, kind, text, span, outcome, exact):
+        """prefix, then `function g1 ... BEGIN {`, the fault line k lines below the opener (k = 0: on the opener's own line), `}`"""
+        befores = [b for b in BEFORE if "\n" not in b]
+        before = rng.choice(befores)
+        after = rng.choice(AFTER)
+        if text in NEEDS_SEMI or text[0] in "[(-+/":
+            before = rng.choice([b for b in befores if b.strip().endswith(";")])
+        if text.rstrip().endswith("}") and after.strip().startswith(";"):
+            after = rng.choice(["", " ", " # trailing ©"])
+        follow = text in NEEDS_FOLLOW
+        if follow:
+            after = rng.choice([a for a in AFTER if a.strip().startswith(";")])
+        if span is None:
+            span = (0, len(text.encode()) + (len(after.encode()) if follow else 0))
+        eol = "\r\n" if "\r\n" in prefix else "\n"
+        opener = rng.choice(["function g1(a) { return a } BEGIN {", "function g1(a) { return a }\tBEGIN {  x0 = 0;"])
+        safe = [l for l in FILL_STMT if "\n" not in l]
+        pb = prefix.encode("utf-8")
+        tail = len(pb) - (pb.rfind(b"\n") + 1)
+        if k == 0:
+            lines = [opener + " " + before + text + after]
+            off = tail + len((opener + " " + before).encode("utf-8"))
+        else:
+            lines = [opener] + [rng.choice(safe) for _ in range(k - 1)] + [before + text + after]
+            off = len(before.encode("utf-8"))
+        n = pb.count(b"\n") + 1 + k
+        lines.append("}")
+        for _ in range(rng.choice([0, 0, 1, 3])):
+            lines.append(rng.choice(FILL_TOP))
+        prog = pb + (eol.join(lines) + (eol if rng.random() < 0.7 else "")).encode("utf-8")
+        self.add(prog, {"what": "the text starts with %r, %s %d lines below the first rule's opening: %s" % (prefix[:40], kind, k, text), "line": n,
+                        "span": [off + span[0], off + span[1]], "outcome": outcome, "exact": exact, "lead": True}, True)
 
     def rand_text(self, rng):
         pieces = ["a", "bc", " ", "\t", "é", "日本", "€", "😀", "x = 1", "\"s\"", "#c", "\r", "@", "", "print", "{", "}"]
@@ -465,13 +557,13 @@ class C12(Check):
             r = RunRes(ctx["impl"].get(c.id, []))
             if r.outcome in ("syntax", "runtime"):
                 cand.append((c, r))
-        longs = [x for x in cand if x[0].meta.get("long")]
-        rest = [x for x in cand if not x[0].meta.get("long")]
+        longs = [x for x in cand if x[0].meta.get("long") or x[0].meta.get("lead")]
+        rest = [x for x in cand if not (x[0].meta.get("long") or x[0].meta.get("lead"))]
         nrest = 2000 if tier == "thorough" else 500
         if len(rest) > nrest:
             rest = rng.sample(rest, nrest)
         sample = longs + rest
-        viol, stats = [], {"cli_diagnostics_long_lines": len(longs), "cli_diagnostics_run": len(sample)}
+        viol, stats = [], {"cli_diagnostics_long_lines_and_text_starts": len(longs), "cli_diagnostics_run": len(sample)}
         with Scratch() as sc:
             def one(x):
                 c, r = x
